@@ -827,6 +827,10 @@ class Ctx:
             if z3.is_mul(t):
                 fs = list(t.children())
                 hit = [j for j, f in enumerate(fs) if f.get_id() == bid]
+                if not hit:
+                    # a factor provably equal to the divisor on this path counts too
+                    hit = [j for j, f in enumerate(fs)
+                           if not z3.is_int_value(f) and not self._feasible(f != bt)][:1]
                 if hit:
                     rest = [f for j, f in enumerate(fs) if j != hit[0]]
                     A = rest[0] if len(rest) == 1 else z3.Product(*rest) if rest else z3.IntVal(1)
